@@ -588,6 +588,7 @@ func runC18(c *report.Ctx) {
 	ruleSoleWriter(c)
 	_ = sort.Strings
 	ruleNoMemoryTipUnderUpdate(c)
+	ruleImportRetryOverride(c)
 }
 
 // closureArg returns the function literal passed as argument #i of call.
